@@ -1455,10 +1455,15 @@ def bestof_peel(ctx, path, n, rule, need, ob, key, sty, k5v, why):
     clauses can be discharged this way; the witness clauses (C03) stay uncertified for such shapes."""
     rep, pdb = ctx.rep, ctx.pdb
     where = pdb.where(key)
-    if {"witness-follows-value", "witness-sorted"} & set(need):
-        ob("loop-shape", short(path), False, why, where)
-        return None
-    sm = ctx.summ(key, [("r", ctx.hand(path, n))], sty, contracts={FIP: fip_contract}, opaque=value_only_opaque(ctx, k5v, need))
+    want_witness = bool({"witness-follows-value", "witness-sorted"} & set(need))
+    opq = set(value_only_opaque(ctx, k5v, need))
+    ks = None
+    if want_witness:
+        # the witness clauses are read off structurally, with the final Five::sort left uninterpreted (its own
+        # correctness is the five-sort rule)
+        ks, _ = ctx.method(FIVE, "sort", HV)
+        opq.add(ks)
+    sm = ctx.summ(key, [("r", ctx.hand(path, n))], sty, contracts={FIP: fip_contract}, opaque=opq)
     ret = sm.ret
     if ret[0] != "agg" or len(ret[2]) != 2:
         ob("result", short(path), False, "hand_rank_value_and_hand does not return a (value, hand) pair", where)
@@ -1547,6 +1552,7 @@ def bestof_peel(ctx, path, n, rule, need, ob, key, sty, k5v, why):
     steps = 0
     badv = badz = None
     stray_all = set()
+    order_ = []
     while remaining:
         found = None
         for X in reversed(remaining):
@@ -1558,6 +1564,7 @@ def bestof_peel(ctx, path, n, rule, need, ob, key, sty, k5v, why):
             ob("loop-shape", short(path), False, why + "; nor is the returned value a chain of best-so-far updates with one step per candidate (peeling stops with %d of %d candidates left)" % (len(remaining), len(calls)), where)
             return None
         X, (prev, T) = found
+        order_.append(X)
         stray = set(atoms_of(T)) - {"$b", "$x"}
         if any(c_ == tag for c_ in calls_of(T)):
             stray.add("the value of another candidate")
@@ -1582,6 +1589,66 @@ def bestof_peel(ctx, path, n, rule, need, ob, key, sty, k5v, why):
     ob("nonzero-preserving", short(path), badz is None, "with best so far %s and a candidate of value %s the best becomes 0" % (badz or (0, 0)), where)
     ob("initial-best", short(path), cur[0] == "c" and cur[1] == 0, "the chain of updates does not start from 0 (no hand yet)", where)
     ob("result-is-running-best", short(path), True)
+    if want_witness:
+        # the reported hand: sort(X) where X is, slot by slot, the *same decision list* as the value (same condition
+        # nodes in the same order, candidate k's j-th card where the value has candidate k's ranking)
+        Hn = ret[2][1]
+        okS = Hn[0] == "call" and Hn[1] == "fn:" + ks and Hn[2][0][0] == "agg" and Hn[2][0][1] == ("adt", FIVE, 0)
+        ob("witness-sorted", short(path), okS, "the reported hand is not Five::sort() of the remembered best candidate", where)
+        okW = False
+        msg = "the remembered hand is not selected by the same decisions as the reported value"
+        if okS:
+            elems = arr_of(Hn[2][0])
+            # decision list of the value (after the same branch-wise simplification the peel used)
+            lst = []
+            node = V
+            guard_ok = True
+            for _ in range(len(calls) + 2):
+                if node[0] != "ite":
+                    break
+                c_, a_, b_ = node[1], node[2], node[3]
+                if a_[0] == "call" and a_[1] == tag:
+                    lst.append((c_, True, a_))
+                    node = b_
+                elif b_[0] == "call" and b_[1] == tag:
+                    lst.append((c_, False, b_))
+                    node = a_
+                else:
+                    guard_ok = False
+                    break
+            final = node
+            if guard_ok and (final[0] == "c" or (final[0] == "call" and final[1] == tag)) and elems is not None and len(elems) == 5:
+                okW = True
+                for j in range(5):
+                    if final[0] == "c":
+                        # no candidate selected: the initial hand (whatever it is) — take it from the actual element
+                        exp = None
+                    else:
+                        exp = arr_of(final[2][0])[j]
+                    # rebuild bottom-up
+                    act = elems[j]
+                    if exp is None:
+                        # find the default leaf by following the else-branches of the actual element
+                        d_ = act
+                        while d_[0] == "ite":
+                            d_ = d_[3] if True else d_[2]
+                        exp = d_
+                    for (c_, then_leaf, Xk) in reversed(lst):
+                        cj = arr_of(Xk[2][0])[j]
+                        exp = mk_ite(c_, cj, exp) if then_leaf else mk_ite(c_, exp, cj)
+                    if exp is not act:
+                        okW = False
+                        msg = "slot %d of the remembered hand is not chosen by the same decisions as the reported value" % j
+                        break
+            else:
+                msg = "the reported value is not a decision list over the candidates' rankings (witness clauses cannot be read off this shape)"
+                okW = None
+        if okW is None or (okS and not okW and "decision list" in msg):
+            ob("witness-follows-value", short(path), False, "UNCERTIFIED: " + msg, where)
+        else:
+            ob("witness-follows-value", short(path), bool(okW), msg, where)
+        # candidates name five distinct slots
+        ob("candidate-distinct-slots", short(path), all(len(set(r)) == 5 for r in rows.values()), "a ranked candidate repeats a slot of the hand", where)
     rep.note("%s: %s::hand_rank_value_and_hand is not a single candidate loop (%s); value clauses decided by peeling the returned value into %d best-so-far updates" % (rule, short(path), why, steps))
     rep.sample({"rule": rule, "container": short(path), "method": "peeled update chain", "updates": steps, "callee": k5v})
     return dict(key=key, callee=k5v, body_obs=[], ex=sm.ex)
@@ -1833,7 +1900,7 @@ def describe_cond(g):
 NEED_MIN = {"value-only-update", "iterates-table", "no-early-exit", "keeps-smallest-nonzero", "result-is-running-best", "initial-best",
             "candidate-from-row", "ranks-one-candidate", "candidate-is-five"}
 NEED_WITNESS = {"witness-follows-value", "witness-sorted", "result-is-running-best", "ranks-one-candidate", "candidate-from-row",
-                "candidate-is-five"}
+                "candidate-is-five", "candidate-distinct-slots"}
 
 
 def check_bestof(ctx, rule, need, table="complete", sizes=((SIX, 6), (SEVEN, 7))):
